@@ -128,7 +128,9 @@ KNOWN_HEADERS = {"SyncTrack", "Events"} | {model.header(i, d) for i, d in model.
 def check_dispatch(rec, log, logs, case) -> bool:
     """conservation / exactly-once over the dispatch records of one parse"""
     ok = True
-    track_warn = [m for (lg, lvl, m) in logs if lg == "chartparse.track" and lvl in ("WARNING", "ERROR", "CRITICAL")]
+    # reports = records of level WARNING+ anywhere in the chartparse logger tree (these charts have no unknown sections and
+    # no unknown [Song] lines, so nothing else has a reason to be reported)
+    track_warn = [m for (lg, lvl, m) in logs if (lg == "chartparse" or lg.startswith("chartparse.")) and lvl in ("WARNING", "ERROR", "CRITICAL")]
     broken = [m for m in track_warn if m.startswith("<unformattable log record")]
     if broken:
         rec.violation("warnings", f"a report about an unparsable line cannot be rendered ({broken[0]}): with the standard logging handlers that "
@@ -179,7 +181,7 @@ def check_dispatch(rec, log, logs, case) -> bool:
         expected = unclaimed_in_sections([(n, b) for n, b in case["sections"]], rec)
         if len(track_warn) != expected:
             rec.violation("warnings", f"{expected} lines of the recognised sections are claimed by no kind of their section, but "
-                          f"{len(track_warn)} warnings were recorded on logger chartparse.track", case, "warnings!=unclaimed-lines")
+                          f"{len(track_warn)} warnings were recorded on the chartparse loggers", case, "warnings!=unclaimed-lines")
             ok = False
     return ok
 
